@@ -582,9 +582,10 @@ mutual
         let rest ← skipTok .rbrace "}" tok
         pure (init.setChild k c', rest)
       | _ =>
-        -- by default the first named member: `while (mem->next && mem->is_bitfield && !mem->name) mem = mem->next`
-        if ms.isEmpty then .error (.crash "union without members: init->mem->next on NULL")
+        -- a GNU empty union has no member to initialize: `if (!init->ty->members) { if "{" struct_initializer1 else *rest = tok }`
+        if ms.isEmpty then (if startsBrace toks then structInit1 f ms toks init else pure (init, toks))
         else
+          -- by default the first named member: `while (mem->next && mem->is_bitfield && !mem->name) mem = mem->next`
           let k := firstNamed ms ms.length 0
           let init := init.setMem k
           match toks with
@@ -862,7 +863,9 @@ mutual
     | .flex, .array _ _, _, _ => .ok []
     | .struct none cs, .struct ms _ _, path, _ => createLvarMs cs ms path
     | .struct (some e) _, .struct _ sz _, path, _ => .ok [{ path := path, kind := .copy sz, e := e }]
-    | .union none mem cs, .union ms _ _, path, _ => createLvarNth cs ms (mem.getD 0) path
+    | .union none mem cs, .union ms _ _, path, _ =>
+      -- `Member *mem = init->mem ? init->mem : ty->members; if (!mem) return ND_NULL_EXPR` (GNU empty union)
+      if ms.isEmpty then .ok [] else createLvarNth cs ms (mem.getD 0) path
     | .union (some e) _ _, .union _ sz _, path, _ => .ok [{ path := path, kind := .copy sz, e := e }]
     | .leaf none, .scalar _ _, _, _ => .ok []
     | .leaf (some e), .scalar sz kind, path, bf =>
